@@ -65,6 +65,29 @@ pub fn run<D: Dec>(prop: &str, rep: &mut Report) {
     product.insert((format!("{:?}", d0), Ctx2::default()), vec![]);
     real_states.insert(format!("{:?}", d0));
     queue.push_back((d0, Ctx2::default(), vec![]));
+    // every reference context is a root as well (reached by its prefix bytes), so that the 6 × 256 / 3 × 256 core
+    // transitions are compared even if extra state in the decoder makes the full graph exceed the cap
+    for c in contexts(set) {
+        let pre = c.prefix_bytes();
+        if pre.is_empty() {
+            continue;
+        }
+        let r0 = guarded(|| {
+            let mut d = D::fresh();
+            for b in pre.iter() {
+                let _ = d.advance_state(*b);
+            }
+            d
+        });
+        if let Ok(d) = r0 {
+            let key = (format!("{:?}", d), c);
+            if !product.contains_key(&key) {
+                product.insert(key, pre.clone());
+                real_states.insert(format!("{:?}", d));
+                queue.push_back((d, c, pre));
+            }
+        }
+    }
     // a decoder obtained through `Default::default()` is a decoder too: if it is not the state `new()` gives,
     // it is explored as a second root (its transitions must follow the reference from the empty context as well)
     let dd = guarded(D::default);
@@ -168,7 +191,7 @@ pub fn run<D: Dec>(prop: &str, rep: &mut Report) {
         let mut h = t;
         while h < n_hist {
             let mut rng = Rng::fork(seed, (h as u64) << 8 | set as u64);
-            let which = h % 4;
+            let which = h % 6;
             // the first sixteen histories are long ones: anything that only shows after many bytes (a counter, a slow leak)
             let this_len = if h < 16 { hist_len * 600 } else { hist_len };
             let bytes = typist.generate(which, &mut rng, this_len);
@@ -200,6 +223,28 @@ pub fn run<D: Dec>(prop: &str, rep: &mut Report) {
         }
     }
     rep.count("history_bytes", hist_events);
+
+    // ---------------------------------------------------------------- (b2) every ordered triple of real-world bursts, from a fresh decoder
+    {
+        let sp = special_sequences(set);
+        let mut out = ShardOut::default();
+        for a in sp.iter() {
+            for b in sp.iter() {
+                for c in sp.iter() {
+                    let mut bytes = a.clone();
+                    bytes.extend(b);
+                    bytes.extend(c);
+                    lockstep_bare::<D>(prop, set, &r, &bytes, &mut out);
+                }
+            }
+        }
+        rep.count("ordered_triples_of_real_world_bursts", out.histories);
+        rep.evaluations += out.bytes;
+        rep.panics += out.panics;
+        for (sg, what, rp) in out.violations {
+            rep.violate(sg, what, rp);
+        }
+    }
 
     // ---------------------------------------------------------------- (c) thorough: all 2^24 three-byte streams
     if rep.thorough() {
@@ -319,7 +364,7 @@ pub struct ShardOut {
     pub events: u64,
     pub errors: u64,
     pub panics: u64,
-    pub per_gen: [u64; 4],
+    pub per_gen: [u64; 6],
     pub violations: Vec<(String, String, J)>,
     pub seen_events: BTreeSet<u16>,
     pub samples: Vec<String>,
